@@ -64,9 +64,16 @@ def leibniz(A):
         term = term if perm_sign(p) > 0 else -term
         tot = term if tot is None else tot + term
     return tot
-def rv(xs): return fracs(xs, _FC)
-_FC = {}
-def delta(c, r, like): return one(like) if c == r else zero(like)
+_FC = {}            # term id -> Frac (per process; one job per process)
+_DV = {}            # divisor terms met by FEq since the last reset: id -> term
+def rv(xs):
+    """outputs of the code (RV) -> fractions N/D over the code's own divisors"""
+    return [Frac.of(x) for x in xs]
+def fr(xs):
+    """inputs (z3 reals) -> fractions with empty denominator (all specification arithmetic is done on Frac objects: z3's ArithRef.__mul__(Frac) raises
+    instead of returning NotImplemented, so mixed products only work with the Frac on the left)"""
+    return [Frac.of(x) for x in xs]
+def delta(c, r, like=None): return Frac(z3.RealVal(1 if c == r else 0))
 def transpose(A): return [[A[c][r] for c in range(len(A))] for r in range(len(A[0]))]
 
 
@@ -79,7 +86,10 @@ class Frac:
     """numerator term, denominator as {divisor id: (divisor term, power)}"""
     def __init__(s, n, d=None): s.n = n; s.d = d or {}
     @staticmethod
-    def of(x): return x if isinstance(x, Frac) else Frac(x.r if isinstance(x, RV) else (z3.RealVal(x) if isinstance(x, int) else x))
+    def of(x):
+        if isinstance(x, Frac): return x
+        if isinstance(x, RV): return to_frac(x.r, _FC)
+        return Frac(z3.RealVal(x) if isinstance(x, int) else x)
     def den(s):
         t = None
         for k in sorted(s.d):
@@ -118,7 +128,7 @@ class Frac:
         return Frac(r.n, d)
 def to_frac(t, cache):
     k = t.get_id()
-    if k in cache: return cache[k]
+    if k in cache: return cache[k][1]
     kd = t.decl().kind(); ch = t.children()
     if z3.is_rational_value(t) or not ch: r = Frac(t)
     elif kd == z3.Z3_OP_ADD: r = functools.reduce(lambda p, q: p + q, [to_frac(c, cache) for c in ch])
@@ -128,19 +138,28 @@ def to_frac(t, cache):
     elif kd == z3.Z3_OP_DIV:
         d = to_frac(ch[1], cache)
         r = to_frac(ch[0], cache) * Frac(z3.RealVal(1) / d.n, {}) if (z3.is_rational_value(d.n) and not d.d) else to_frac(ch[0], cache) / d
-    else: r = Frac(t)          # opaque (ite, sqrt variable, ...)
-    cache[k] = r; return r
+    elif kd == z3.Z3_OP_ITE and z3.is_real(t):
+        # ite(c, n1/d1, n2/d2) = ite(c, n1*(l/d1), n2*(l/d2)) / l with l = lcm(d1, d2); like the cross-multiplication in FEq this needs every divisor to be non-zero
+        # on ALL inputs satisfying the precondition (not only on the branch that divides): that is what the 'divisor!=0' obligations added by with_divisors demand.
+        # The condition keeps its original form.
+        a, b = to_frac(ch[1], cache), to_frac(ch[2], cache); l = Frac._lcm(a.d, b.d)
+        r = Frac(z3.If(ch[0], Frac._scale(a.n, a.d, l), Frac._scale(b.n, b.d, l)), l)
+    else: r = Frac(t)          # opaque (sqrt variable, uninterpreted function, ...)
+    cache[k] = (t, r); return r          # t is kept alive: z3 reuses the ids of freed terms
 def FEq(l, r):
-    if isinstance(l, Frac) or isinstance(r, Frac):
-        l, r = Frac.of(l), Frac.of(r); m = Frac._lcm(l.d, r.d)
-        return RGoal('eq', Frac._scale(l.n, l.d, m), Frac._scale(r.n, r.d, m))
-    return REq(l, r)
-def fracs(xs, cache):
-    return [to_frac(x.r, cache) if isinstance(x, RV) and not z3.is_rational_value(x.r) else (x.r if isinstance(x, RV) else x) for x in xs]
-def check_real(S, U, fn, spec, pre, name, bounds, mutant=None, known=(), timeout=None, ins=None, mandatory=True, unwind=16):
+    l, r = Frac.of(l), Frac.of(r); m = Frac._lcm(l.d, r.d)
+    for k, (term, p) in m.items(): _DV[k] = term
+    return RGoal('eq', Frac._scale(l.n, l.d, m), Frac._scale(r.n, r.d, m))
+def with_divisors(spec):
+    """spec -> spec + one obligation per divisor of the code met while cross-multiplying: it is non-zero for every input satisfying the precondition"""
+    def sp(i, o):
+        _DV.clear(); g = list(spec(i, o))
+        return g + [('divisor!=0[%d]' % k, d != 0) for k, d in enumerate(_DV[j] for j in sorted(_DV))]
+    return sp
+def check_real(S, U, fn, spec, pre, name, bounds, mutant=None, known=(), timeout=None, ins=None, mandatory=True, unwind=16, solver='z3'):
     """(1) the executor's side obligations (code's divisors != 0, sqrt arguments >= 0, loop bounds) under pre;  (2) the goals, cross-multiplied"""
-    S.check_fn(U, fn, None, pre, mode='real', name=name + '.domain', timeout=timeout, bounds=bounds, ins=ins, mandatory=mandatory, unwind=unwind)
-    S.check_fn(U, fn, spec, pre, mode='real', name=name, timeout=timeout, bounds=bounds, ins=ins, mandatory=mandatory, unwind=unwind, side=False, witness=False, mutant=mutant, known=known)
+    S.check_fn(U, fn, None, pre, mode='real', name=name + '.domain', timeout=timeout, bounds=bounds, ins=ins, mandatory=mandatory, unwind=unwind, solver=solver)
+    S.check_fn(U, fn, with_divisors(spec), pre, mode='real', name=name, timeout=timeout, bounds=bounds, ins=ins, mandatory=mandatory, unwind=unwind, side=False, witness=False, mutant=mutant, known=known, solver=solver)
 
 def ident_goals(tag, X, Y, L):
     """(X*Y)[c][r] == delta for column-major X, Y (lists of columns)"""
@@ -151,10 +170,10 @@ def job_inverse(t, L):
     U = UNITS[t]
     def run(S):
         def spec(i, o):
-            A = unflat(i[0], L, L); I = unflat(rv(o[0]), L, L)
+            A = unflat(fr(i[0]), L, L); I = unflat(rv(o[0]), L, L)
             return ident_goals('inverse(M)*M', I, A, L) + ident_goals('M*inverse(M)', A, I, L)
         def mut(i, o):
-            A = unflat(i[0], L, L); I = unflat(rv(o[0]), L, L); P = mmul(transpose(I), A)
+            A = unflat(fr(i[0]), L, L); I = unflat(rv(o[0]), L, L); P = mmul(transpose(I), A)
             return [('transposed-inverse', FEq(P[1][0], zero(P[1][0])))]
         check_real(S, U, 'inv_%d' % L, spec, lambda i: [leibniz(unflat(i[0], L, L)) != 0], 'c10_%s.inverse%d.real' % (t, L), 'all real %dx%d matrices with det != 0' % (L, L), mutant=mut, timeout=S.cap(60, 180))
     return run
@@ -163,10 +182,10 @@ def job_det(t, L):
     U = UNITS[t]
     def run(S):
         def spec(i, o):
-            A = unflat(i[0], L, L); B = unflat(i[1], L, L); d = rv(o[0])
+            A = unflat(fr(i[0]), L, L); B = unflat(fr(i[1]), L, L); d = rv(o[0])
             return [('determinant==Leibniz', FEq(d[0], leibniz(A))), ('determinant(transpose)', FEq(d[1], leibniz(A))), ('determinant(A*B)==det(A)*det(B)', FEq(d[2], leibniz(A) * leibniz(B)))]
         def mut(i, o):
-            A = unflat(i[0], L, L); A2 = [list(c) for c in A]; A2[0][0], A2[0][1] = A2[0][1], A2[0][0]
+            A = unflat(fr(i[0]), L, L); A2 = [list(c) for c in A]; A2[0][0], A2[0][1] = A2[0][1], A2[0][0]
             return [('swapped-entry', FEq(rv(o[0])[0], leibniz(A2)))]
         S.check_fn(U, 'det_%d' % L, spec, mode='real', name='c10_%s.determinant%d.real' % (t, L), mutant=mut, timeout=S.cap(90, 240), bounds='all real %dx%d matrices' % (L, L))
     return run
@@ -180,13 +199,13 @@ def job_invT(t, L):
             return [('inverseTranspose==transpose(inverse)[%d][%d]' % (c, r), FEq(IT[c][r], I[r][c])) for c in range(L) for r in range(L)]
         def spec_id(i, o):
             # independent of glm::inverse: X = transpose(inverseTranspose(M)) is a two-sided inverse of M
-            A = unflat(i[0], L, L); IT = unflat(rv(o[0]), L, L)
+            A = unflat(fr(i[0]), L, L); IT = unflat(rv(o[0]), L, L)
             return ident_goals('transpose(inverseTranspose(M))*M', transpose(IT), A, L) + ident_goals('M*transpose(inverseTranspose(M))', A, transpose(IT), L)
         def mut(i, o):
             IT = unflat(rv(o[0]), L, L); I = unflat(rv(o[1]), L, L)
             return [('not-transposed', FEq(IT[1][0], I[1][0]))]
-        kn = ['KF-C10-inverseTranspose2'] if L == 2 else []
-        check_real(S, U, 'invT_%d' % L, spec_id, pre, 'c10_%s.inverseTranspose%d.real' % (t, L), 'all real %dx%d matrices with det != 0' % (L, L), known=kn, mutant=None if L == 2 else mut, timeout=S.cap(60, 180))
+        kn = []
+        check_real(S, U, 'invT_%d' % L, spec_id, pre, 'c10_%s.inverseTranspose%d.real' % (t, L), 'all real %dx%d matrices with det != 0' % (L, L), known=kn, mutant=mut, timeout=S.cap(60, 180))
         # the literal statement (two rational functions produced by the code compared entry by entry); for 4x4 the nonlinear solver does not finish -> optional there
         S.check_fn(U, 'invT_%d' % L, spec_eq, pre, mode='real', name='c10_%s.inverseTranspose%d.vs-inverse.real' % (t, L), known=kn, witness=False, side=False,
                    timeout=S.cap(60, 180), bounds='all real %dx%d matrices with det != 0' % (L, L))
@@ -203,7 +222,7 @@ def job_affine(t, L):
     U = UNITS[t]
     def run(S):
         def spec(i, o):
-            A = unflat(i[0], L, L); AI = unflat(rv(o[0]), L, L); I = unflat(rv(o[1]), L, L)
+            A = unflat(fr(i[0]), L, L); AI = unflat(rv(o[0]), L, L); I = unflat(rv(o[1]), L, L)
             g = [('affineInverse==inverse[%d][%d]' % (c, r), FEq(AI[c][r], I[c][r])) for c in range(L) for r in range(L)]
             return g + ident_goals('affineInverse(M)*M', AI, A, L)
         def mut(i, o):
@@ -217,7 +236,7 @@ def job_div(t, L):
     U = UNITS[t]
     def run(S):
         def spec(i, o):
-            A = unflat(i[0], L, L); B = unflat(i[1], L, L); v = i[2]
+            A = unflat(fr(i[0]), L, L); B = unflat(fr(i[1]), L, L); v = fr(i[2])
             X = unflat(rv(o[0]), L, L); x = rv(o[1]); y = rv(o[2]); X2 = unflat(rv(o[3]), L, L)
             XB = mmul(X, B); X2B = mmul(X2, B); Bx = mulv(B, x); yB = vmul(y, B)
             g = [('(A/B)*B==A[%d][%d]' % (c, r), FEq(XB[c][r], A[c][r])) for c in range(L) for r in range(L)]
@@ -226,7 +245,7 @@ def job_div(t, L):
             g += [('(A/=B)*B==A[%d][%d]' % (c, r), FEq(X2B[c][r], A[c][r])) for c in range(L) for r in range(L)]
             return g
         def mut(i, o):
-            A = unflat(i[0], L, L); B = unflat(i[1], L, L); X = unflat(rv(o[0]), L, L); BX = mmul(B, X)
+            A = unflat(fr(i[0]), L, L); B = unflat(fr(i[1]), L, L); X = unflat(rv(o[0]), L, L); BX = mmul(B, X)
             return [('left-division', FEq(BX[1][0], A[1][0]))]
         check_real(S, U, 'div_%d' % L, spec, lambda i: [leibniz(unflat(i[1], L, L)) != 0], 'c10_%s.divide%d.real' % (t, L), 'all real A, v; all real B with det(B) != 0', mutant=mut, timeout=S.cap(90, 240))
     return run
@@ -235,7 +254,7 @@ def job_adj(t, L):
     U = UNITS[t]
     def run(S):
         def spec(i, o):
-            A = unflat(i[0], L, L); J = unflat(rv(o[0]), L, L); P = mmul(J, A); Q = mmul(A, J); d = leibniz(A)
+            A = unflat(fr(i[0]), L, L); J = unflat(rv(o[0]), L, L); P = mmul(J, A); Q = mmul(A, J); d = leibniz(A)
             return [('adjugate(M)*M==det*I[%d][%d]' % (c, r), FEq(P[c][r], d if c == r else zero(d))) for c in range(L) for r in range(L)] + \
                    [('M*adjugate(M)==det*I[%d][%d]' % (c, r), FEq(Q[c][r], d if c == r else zero(d))) for c in range(L) for r in range(L)]
         kn = {3: ['KF-C10-adjugate3-%d%d' % (c, r) for c in range(3) for r in range(3)], 4: ['KF-C10-adjugate4-%d%d' % (c, r) for c in range(4) for r in range(4)]}.get(L, [])
@@ -246,7 +265,7 @@ def job_diag(t, L):
     U = UNITS[t]
     def run(S):
         def spec(i, o):
-            v = i[0]; I = unflat(rv(o[0]), L, L); d = rv(o[1])[0]; p = v[0]
+            v = fr(i[0]); I = unflat(rv(o[0]), L, L); d = rv(o[1])[0]; p = v[0]
             for k in range(1, L): p = p * v[k]
             g = [('inverse(diagonal(v))[%d][%d]' % (c, r), FEq(I[c][r] * v[c], one(v[0])) if c == r else FEq(I[c][r], zero(v[0]))) for c in range(L) for r in range(L)]
             return g + [('determinant(diagonal(v))', FEq(d, p))]
@@ -264,7 +283,7 @@ def job_qr(t, C, R, which, mandatory):
         return [leibniz(G) != 0]
     def run(S):
         def spec(i, o):
-            A = unflat(i[0], C, R)
+            A = unflat(fr(i[0]), C, R)
             if which == 'qr':
                 Q = unflat(rv(o[0]), m, R); Rm = unflat(rv(o[1]), C, m)        # Q: m columns of R rows; R: C columns of m rows
                 P = mmul(Q, Rm); QtQ = mmul(transpose(Q), Q)
